@@ -74,6 +74,59 @@ fn size_value(class: &str, l: usize) -> usize {
     }
 }
 
+/// A length `n` whose product with `width` overflows `usize` and wraps to a small
+/// value (about `c * 2^a` bits, `2^a` the largest power of two dividing `width`):
+/// the argument a release build (no overflow checks) mis-sizes storage with if the
+/// product is not checked. `None` for widths 0 and 1 (no wrap possible).
+fn wrap_len(width: usize, c: usize) -> Option<usize> {
+    if width < 2 {
+        return None;
+    }
+    let a = width.trailing_zeros();
+    let o = width >> a;
+    let n = if o == 1 {
+        (1usize << (usize::BITS - a)).wrapping_add(c)
+    } else {
+        // inverse of the odd part modulo 2^64 (Newton iteration), times c
+        let mut inv: usize = o;
+        for _ in 0..6 {
+            inv = inv.wrapping_mul(2usize.wrapping_sub(o.wrapping_mul(inv)));
+        }
+        inv.wrapping_mul(c.max(1))
+    };
+    if (n as u128) * (width as u128) <= usize::MAX as u128 {
+        return None;
+    }
+    Some(n)
+}
+
+/// Safe reads and writes on a vector whose state may have been left behind by a
+/// caught panic or by a constructor given an overflowing size: each either
+/// answers or panics.
+fn probe_bfv<W: Word>(b: &mut BitFieldVec<W>) {
+    let l = b.len();
+    for i in [0usize, 1, 4, 63, 1 << 10, 1 << 20, l / 2, l.wrapping_sub(1), l] {
+        let _ = catch(|| black_box(b.get(i)));
+        let _ = catch(|| b.set(i, W::ZERO));
+    }
+    let _ = catch(|| black_box(b.iter().take(3000).count()));
+    let _ = catch(|| black_box(b.pop()));
+    let _ = catch(|| b.push(W::ZERO));
+    let _ = catch(|| black_box((b.len(), b.get(b.len().wrapping_sub(1)))));
+}
+
+fn probe_bitvec(b: &mut BitVec) {
+    let l = BitLength::len(&*b);
+    for i in [0usize, 1, 63, 64, 65, 1 << 10, 1 << 20, l / 2, l.wrapping_sub(1), l] {
+        let _ = catch(|| black_box(b.get(i)));
+        let _ = catch(|| b.set(i, true));
+    }
+    let _ = catch(|| black_box((b.count_ones(), b.iter().take(100000).count(), b.iter_ones().take(100000).count(), b.iter_zeros().take(100000).count())));
+    let _ = catch(|| black_box(b.pop()));
+    let _ = catch(|| b.push(true));
+    let _ = catch(|| black_box(b.get(BitLength::len(&*b).wrapping_sub(1))));
+}
+
 struct Sweep<'a> {
     ctx: &'a mut Ctx,
     answered: u64,
@@ -195,6 +248,21 @@ fn sweep_bitvec(sw: &mut Sweep) {
             }),
         ];
         sw.run("BitVec", name, &make, sized, SIZE_CLASSES, true);
+        // unwinding faults: a caller-supplied iterator panics in the middle of a
+        // mutating call; the vector left behind must still answer or panic
+        let faults: &[(&str, &dyn Fn(&mut BitVec, usize, &mut SmallRng))] = &[
+            ("extend_panicking_iter_then_probe", &|b, n, r| {
+                let k = n.min(3000);
+                let v = r.random_bool(0.5);
+                let _ = catch(|| b.extend((0..=k).map(|j| if j == k { panic!("injected fault in the iterator") } else { v ^ (j % 3 == 0) })));
+                probe_bitvec(b);
+            }),
+            ("collect_panicking_iter", &|_b, n, _| {
+                let k = n.min(3000);
+                let _ = catch(|| black_box((0..=k).map(|j| if j == k { panic!("injected fault in the iterator") } else { j % 2 == 0 }).collect::<BitVec>()));
+            }),
+        ];
+        sw.run("BitVec", name, &make, faults, &["0", "1", "len-1", "len", "2len", "2^16"], true);
 
         let make_a = move |rng: &mut SmallRng| {
             let m = gen_bits(rng, len, pat);
@@ -337,6 +405,54 @@ fn sweep_bfv<W: Word + TryFrom<u128>>(sw: &mut Sweep, wname: &str) {
                 }),
             ];
             sw.run(&variant, &inst, &make, sized, SIZE_CLASSES, true);
+            // sizes whose product with the bit width overflows usize (and wraps to
+            // something small without overflow checks), and unwinding faults
+            // injected through caller-supplied iterators and closures: the call
+            // panics or answers, and the vector left behind still answers or panics
+            let wraps: &[(&str, &dyn Fn(&mut BitFieldVec<W>, usize, &mut SmallRng))] = &[
+                ("new_wrap_then_probe", &|b, c, _| {
+                    if let Some(n) = wrap_len(b.bit_width(), c) {
+                        if let Ok(mut x) = catch(|| BitFieldVec::<W>::new(b.bit_width(), n)) {
+                            probe_bfv(&mut x);
+                        }
+                    }
+                }),
+                ("new_unaligned_wrap_then_probe", &|b, c, _| {
+                    if let Some(n) = wrap_len(b.bit_width(), c) {
+                        if let Ok(mut x) = catch(|| BitFieldVec::<W>::new_unaligned(b.bit_width(), n)) {
+                            let _ = catch(|| black_box(x.get_unaligned(x.len() / 2)));
+                            probe_bfv(&mut x);
+                        }
+                    }
+                }),
+                ("resize_wrap_then_probe", &|b, c, _| {
+                    if let Some(n) = wrap_len(b.bit_width(), c) {
+                        let m = b.mask();
+                        let _ = catch(|| b.resize(n, m));
+                        probe_bfv(b);
+                    }
+                }),
+                ("extend_panicking_iter_then_probe", &|b, n, _| {
+                    let k = n.min(300);
+                    let m = b.mask();
+                    let _ = catch(|| b.extend((0..=k).map(|j| if j == k { panic!("injected fault in the iterator") } else { m })));
+                    probe_bfv(b);
+                }),
+                ("apply_in_place_panicking_then_probe", &|b, n, _| {
+                    let mut seen = 0usize;
+                    let _ = catch(|| {
+                        b.apply_in_place(|x| {
+                            seen += 1;
+                            if seen > n {
+                                panic!("injected fault in the closure");
+                            }
+                            x
+                        })
+                    });
+                    probe_bfv(b);
+                }),
+            ];
+            sw.run(&variant, &inst, &make, wraps, &["0", "1", "len-1", "len", "2^16"], true);
 
         }
     }
@@ -370,6 +486,18 @@ where
                 }),
             ];
             sw.run(&format!("AtomicBitFieldVec<{}>", wname), &inst, &make_a, am, CLASSES, false);
+            let aw: &[(&str, &dyn Fn(&mut AtomicBitFieldVec<W>, usize, &mut SmallRng))] = &[("new_wrap_then_probe", &|a, c, _| {
+                if let Some(n) = wrap_len(a.bit_width(), c) {
+                    if let Ok(x) = catch(|| AtomicBitFieldVec::<W>::new(a.bit_width(), n)) {
+                        let l = x.len();
+                        for i in [0usize, 1, 4, 63, 1 << 10, 1 << 20, l / 2, l.wrapping_sub(1), l] {
+                            let _ = catch(|| black_box(x.get_atomic(i, Ordering::Relaxed)));
+                            let _ = catch(|| x.set_atomic(i, W::ZERO, Ordering::Relaxed));
+                        }
+                    }
+                }
+            })];
+            sw.run(&format!("AtomicBitFieldVec<{}>", wname), &inst, &make_a, aw, &["0", "1", "len-1", "2^16"], true);
         }
     }
 }
